@@ -150,6 +150,19 @@ func (set *SortedSet) GetAll() []MemberParam {
 	return res
 }
 
+// GetSorted returns the members in the order of the sorted set (score, then member),
+// from the highest to the lowest when reverse is true.
+func (set *SortedSet) GetSorted(reverse bool) []MemberParam {
+	res := set.GetAll()
+	slices.SortFunc(res, func(a, b MemberParam) int {
+		if reverse {
+			return compareMembers(b, a)
+		}
+		return compareMembers(a, b)
+	})
+	return res
+}
+
 func (set *SortedSet) Cardinality() int {
 	return len(set.GetAll())
 }
